@@ -409,7 +409,8 @@ func (g *G) loopProg() *Prog {
 }
 
 func (g *G) routeCase() *routeCase {
-	variants := []string{"errnode", "errbranches", "neither", "guard", "second-node", "errnode-missing"}
+	variants := []string{"errnode", "errbranches", "neither", "guard", "second-node", "errnode-missing",
+		"errbranches-guard", "errnode-loops-too"}
 	c := &routeCase{Variant: variants[g.intn(len(variants))], Limit: 2 + g.intn(8)}
 	s := &ASpec{Nodes: map[string]*ANode{}}
 	loop := &Act{P: g.loopProg()}
@@ -430,6 +431,18 @@ func (g *G) routeCase() *routeCase {
 		s.ErrBranches = true
 		s.Nodes["start"] = &ANode{Action: loop, HasBranches: true, Type: "bindings", Branches: []*ABranch{
 			{HasPattern: true, Pattern: map[string]interface{}{"actionError": "?e"}, Target: "handled"}, {Target: "other"}}}
+	case "errbranches-guard":
+		// the action times out and the guard of the error-handling branch is endless as well: it runs under the
+		// step's (expired) context, so it is interrupted at once and the step fails like one whose guard throws
+		s.ErrBranches = true
+		s.Nodes["start"] = &ANode{Action: loop, HasBranches: true, Type: "bindings", Branches: []*ABranch{
+			{HasPattern: true, Pattern: map[string]interface{}{"actionError": "?e"}, Guard: &Act{P: g.loopProg()}, Target: "handled"},
+			{Target: "other"}}}
+	case "errnode-loops-too":
+		// the designated error node's own action is endless, too
+		s.ErrNode = "onerr"
+		s.Nodes["start"] = &ANode{Action: loop, HasBranches: true, Type: "bindings", Branches: []*ABranch{{Target: "other"}}}
+		s.Nodes["onerr"] = &ANode{Action: &Act{P: g.loopProg()}, HasBranches: true, Type: "bindings", Branches: []*ABranch{{Target: "handled"}}}
 	case "neither":
 		s.Nodes["start"] = &ANode{Action: loop, HasBranches: true, Type: "bindings", Branches: []*ABranch{{Target: "other"}}}
 	case "guard":
